@@ -34,7 +34,7 @@ type srunCase struct {
 	Include     string            `json:"include"` // none (no WithInclude) | all | odd | even | ida
 	UpdatesOnly bool              `json:"updates_only"`
 	Taken       int               `json:"taken"`
-	Writes      []string          `json:"writes"` // "u:<id>:<val>" | "x:<id>" | "r:<id>:<val>" (an overtaken create, see rivalCreate)
+	Writes      []string          `json:"writes"`       // "u:<id>:<val>" | "x:<id>" | "r:<id>:<val>" (an overtaken create, see rivalCreate)
 	BP          []bool            `json:"bp,omitempty"` // the reader's backpressure options as a LIST (the last one decides: always false here)
 }
 
@@ -332,7 +332,7 @@ func genSrunCases(f lib.Flags) []srunCase {
 }
 
 func newSlowReaderMonitor(res *lib.Result) *lib.Monitor {
-	return res.Monitor("slow-reader-view", "the REAL resource.Collection with one lossy Pull subscriber that is BEHIND: it takes k of its events (seeds first; every k), stops, a whole sequence of writes is made (ALL sequences up to length L — quick 3..4, thorough 4..5 — of updates-or-creates and deletes over 2 ids, every new value inside or outside the odd/even filters at will), then it reads on until nothing more comes; for Pull with WithInclude(odd|even|by-id|accept-all) and with NO include function, seeded and updates-only, from several stored views; independent of the model and of timing (every write has returned, so its event is in the subscriber's merge buffer or forwarder): no write blocks, fails or waits; the received changes chain per id at the reader's own filtered view, never carry an excluded value, and fold to the collection's state as the filter admits it (= List with that filter) — in particular an item that was shown and was written to several times while the reader was behind, ending outside the filter, is REMOVED; distinct = the case; non-trivial = something was merged away")
+	return res.Monitor("slow-reader-view", "the REAL resource.Collection with one lossy Pull subscriber that is BEHIND: it takes k of its events (seeds first; every k), stops, a whole sequence of writes is made (ALL sequences up to length L — quick 3..4, thorough 4..5 — of updates-or-creates, deletes and OVERTAKEN creates (a rival adds the absent item with the empty message from the write's own InterceptBefore callback: the write is then an update of an item the reader may already hold) over 2 ids, every new value inside or outside the odd/even filters at will), then it reads on until nothing more comes; for Pull with WithInclude(odd|even|by-id|accept-all) and with NO include function, seeded and updates-only, from several stored views, also subscribed with backpressure option LISTS ending in false ([f], [t,f], [f,t,f]); independent of the model and of timing (every write has returned, so its event is in the subscriber's merge buffer or forwarder): no write blocks, fails or waits; the received changes chain per id at the reader's own filtered view, never carry an excluded value, and fold to the collection's state as the filter admits it (= List with that filter) — in particular an item that was shown and was written to several times while the reader was behind, ending outside the filter, is REMOVED; distinct = the case; non-trivial = something was merged away")
 }
 
 // runSlowReader needs neither the driver nor hooks: it runs next to the model-scheduled families.
